@@ -133,13 +133,16 @@ CLAIMS['C05'] = dict(
     design_ref='DESIGN.md 5 C05')
 
 CLAIMS['C09'] = dict(
-    text='Unbounded proof for the in-memory options without prefix stripping: the loop of SourceMap::rewrite_with_mapping is verified against the statement token by token -- '
-         'every token keeps its generated position, original line / column and range flag and resolves to the same source string and (unless names are dropped) name string; the '
-         'new source and name tables have no duplicates and nothing unreferenced; mapping[new id] is an old id of the same source; contents follow their source; file and debug id '
-         'are preserved -- on top of the builder contracts (add_token re-interns what the token resolves to, tables mirror the interning maps, into_sourcemap hands everything over). '
-         'PARTIAL: strip_prefixes / the "~" common prefix and SourceMapHermes::rewrite (closure capturing a mutable reference: outside the Verus subset) are covered only by BOUNDED '
-         'stand-ins (bounded/: rewrite, hermes_rewrite), labelled bounded in evidence.',
-    note=_TB + 'Preconditions of the proved contract: load_local_source_contents off (the property itself restricts to in-memory options), no strip_prefixes, fewer than 2^32-256 tokens. '
+    text='Unbounded proof for the in-memory options including explicit prefix stripping: the loop of SourceMap::rewrite_with_mapping is verified against the statement token by token -- '
+         'every token keeps its generated position, original line / column and range flag and resolves to the same source string and (unless names are dropped) name string over an intermediate '
+         'source table that has no duplicates and nothing unreferenced; mapping[new id] is an old id of the same source; contents follow their source; file and debug id are preserved; the name table '
+         'has no duplicates -- on top of the builder contracts (add_token re-interns what the token resolves to, tables mirror the interning maps, into_sourcemap hands everything over); and the '
+         'source table of the result is that intermediate table with, for each entry, the FIRST prefix of options.strip_prefixes that matches it at a path-component boundary (the prefix with a '
+         'trailing "/" added unless it has one) cut off, unchanged when none matches: SourceMapBuilder::strip_prefixes is verified (for S = String, its only instantiation) over Verus\'s prophetic '
+         'model of iter_mut, and the prefix list handed to it is proved to be the option list. PARTIAL: the "~" common prefix (find_common_prefix) and SourceMapHermes::rewrite (closure capturing a '
+         'mutable reference: outside the Verus subset) are covered only by BOUNDED stand-ins (bounded/: rewrite, hermes_rewrite), labelled bounded in evidence.',
+    note=_TB + 'Preconditions of the proved contract: load_local_source_contents off (the property itself restricts to in-memory options), no "~" among the prefixes, fewer than 2^32-256 tokens. '
+         'Assumed: String::push / ends_with / as_ref().to_string(), Arc<str>::starts_with(&String), arc[n..].into() after a matching prefix (prelude/shim_strip.rs). '
          'bounded stand-ins enumerate a stated finite space through the public API and are never counted as discharged obligations.',
     design_ref='DESIGN.md 5 C09')
 
@@ -237,7 +240,7 @@ NOT_COVERED = {
     'C19': ['the std adapter chains inside make_relative_path are behind assumed contracts (split/filter/collect, sort_by_key, repeat/take/collect, join); the bounded stand-in relpath exercises the real ones', 'find_common_prefix (the rewrite "~" option): not part of C19'],
     'C20': ['scroll::Pread internals and the derive(Pread) expansion (assumed contracts; exercised by the bounded stand-in ram_bundle)', 'UnbundleRamBundle (file-system based variant)', 'split_ram_bundle / SplitRamBundleModuleIter (composition with flatten and SourceMapBuilder)', 'that Iterator::next of RamBundleModuleIter is the inherent body verified here (R-trait-inherent: same text, emitted outside the trait impl)'],
     'C10': ['inputs with an empty stretch (two tokens at one position, column u32::MAX): the exactly-one-token clause is conditional on non-empty stretches (known finding D10 lives there); bounded stand-in adjust_dups', 'positions >= 2^30 (`as i32` arithmetic): outside the precondition'],
-    'C09': ['strip_prefixes, find_common_prefix ("~") (bounded stand-in rewrite only)', 'load_local_source_contents (filesystem; excluded by the property)', 'SourceMapHermes::rewrite function-map permutation (bounded stand-in only)'],
+    'C09': ['find_common_prefix (the "~" prefix option): bounded stand-in rewrite only', 'load_local_source_contents (filesystem; excluded by the property)', 'SourceMapHermes::rewrite function-map permutation (bounded stand-in only)'],
     'C05': ['dependencies (serde_json, url, bitvec, data-encoding, base64-simd, debugid)', 'sourceview.rs, js_identifiers.rs, detector.rs line scan, Display/Debug impls, ram_bundle.rs',
             'flatten (+ off_col / + off_line overflow, design-phase defect D6), rewrite, adjust_mappings, range bitfield writer (D4), decode_hermes', 'allocation in proportion to the input; wall-clock (only termination is proved)'],
     'C08': ['agreement lookup vs flatten for index maps with NESTED index sections (the lemma covers regular and Hermes sections): bounded stand-in index_nested', 'the hypotheses of the agreement lemma are the postconditions of executed functions; no concrete witness is constructed inside Verus (Vec values cannot be built in spec code), the stand-ins index_flatten / index_nested run the real functions on such inputs', 'flatten_and_rewrite (composition of two proved functions, not itself under contract)'],
@@ -248,6 +251,6 @@ NOT_COVERED = {
     'C07': ['document plumbing (as_raw_sourcemap writes the key only when a range token exists; decode_regular hands the strings to the loop): bounded stand-in rmi_roundtrip; the token-level round trip with flags is proved (lemma_document_roundtrip_with_ranges)'],
     'C11': ['an independent syntactic characterisation of canonical texts (canonical is defined as the image of the reference encoder)'],
     'C12': ['the JSON layer and the base64 reader themselves (uninterpreted functions of the bytes; their chunking independence is assumed): bounded stand-in header runs the real ones', 'the typed wrappers SourceMap::from_reader / from_slice etc. (match on the decoded kind)'],
-    'C13': ['"serialisation writes raw names plus root" (as_raw_sourcemap)', 'strip_prefixes'],
+    'C13': ['"serialisation writes raw names plus root" (as_raw_sourcemap)'],
     'C04': ['rewrite / flatten as token producers are covered through into_sourcemap / SourceMap::new (proved); adjust_mappings through its own clause ens_result_ordered_by_generated_position'],
 }
